@@ -23,7 +23,9 @@ type CorpusItem struct {
 	Path    string  `json:"path"`
 	Cfg     CfgSpec `json:"cfg"`
 	Fail    string  `json:"fail,omitempty"`
-	Twin    int     `json:"twin,omitempty"` // index of the item "same path, Config modified after Parse" (0: none)
+	Twin    int     `json:"twin,omitempty"`  // index of the item "same path, Config modified after Parse" (0: none)
+	Twin2   int     `json:"twin2,omitempty"` // index of the item "same path, a struct copy of the Config with one more function" (0: none)
+	Extra   int     `json:"extra,omitempty"` // the function a Twin2 config has in addition
 	Outcome string  `json:"outcome,omitempty"`
 }
 
@@ -81,6 +83,34 @@ func buildCorpus(seed uint64) []CorpusItem {
 			items[i].Twin = len(items)
 			items = append(items, CorpusItem{Path: items[i].Path, Cfg: CfgSpec{Present: true, Replaced: true}, Fail: items[i].Fail, Twin: -1})
 		}
+	}
+	// twin2: a struct copy of the Config that then registers its first function of the other
+	// kind (the copy gets a map of its own for that kind, so the original must stay as it was)
+	const filterMask = 1<<fID | 1<<fTag | 1<<fFF | 1<<fYF
+	for i := 0; i < n; i++ {
+		c := items[i].Cfg
+		if !c.Present || c.Replaced || c.Funcs == 0 || i%3 != 1 {
+			continue
+		}
+		extra := -1
+		if c.Funcs&^filterMask == 0 {
+			extra = fCnt // filter functions only: the copy adds an aggregate
+		} else if c.Funcs&filterMask == 0 {
+			extra = fID // aggregates only: the copy adds a filter function
+		}
+		if extra < 0 {
+			continue
+		}
+		c2 := c
+		c2.Funcs |= 1 << uint(extra)
+		items[i].Twin2, items[i].Extra = len(items), extra
+		// a path that uses the added function, so that the difference matters
+		path := items[i].Path
+		if items[i].Fail == "" {
+			path += "." + funcNames[extra] + "()"
+		}
+		items[i].Path = path
+		items = append(items, CorpusItem{Path: path, Cfg: c2, Fail: items[i].Fail, Twin: -1})
 	}
 	return items
 }
@@ -248,6 +278,75 @@ func runC19() *RunResult {
 				}
 			}
 			t.ops = append(t.ops, o)
+			if it.Twin2 > 0 && chance(60) {
+				// A := the item's Config; B := A (struct copy); B registers one more function.
+				// Parse with both, in a drawn order: each must behave as in a fresh process.
+				order := rn(4)
+				cp := &Op{Kind: opCustom, Path: &PathSpec{Text: it.Path + "  (Config and its struct copy)"}, Cfg: it.Cfg}
+				cp.Do = func(t *Task, o *Op) {
+					if c19Expect == nil {
+						return
+					}
+					a := buildConfig(it.Cfg)
+					b := a
+					if isAggregate(it.Extra) {
+						b.SetAggregateFunction(funcNames[it.Extra], mkAggregate(it.Extra, it.Cfg.Variant))
+					} else {
+						b.SetFilterFunction(funcNames[it.Extra], mkFilter(it.Extra, it.Cfg.Variant))
+					}
+					t.probe("config-struct-copied-then-extended")
+					seq := [][2]int{{0, 1}, {1, 0}, {0, 1}, {1, 0}}[order]
+					steps := []int{seq[0], seq[1]}
+					if order >= 2 {
+						steps = append(steps, seq[0])
+					}
+					for _, which := range steps {
+						idx, cfg := item, a
+						if which == 1 {
+							idx, cfg = it.Twin2, b
+						}
+						_, got, _ := execItem(c19Corpus[idx], []jsonpath.Config{cfg}, 0, &t.rec)
+						if simrt.Aborted() != 0 {
+							return
+						}
+						t.judged++
+						o.Got += got.Parse + ";"
+						if got.String() != c19Expect[idx] {
+							t.fail("C19:outcome-differs-from-first-call-in-fresh-process", c19Corpus[idx].Path,
+								fmt.Sprintf("Parse(%q, %s) where the Config is one of a pair (a Config and its struct copy that registered %q in addition)\n  got               %s\n  fresh process got %s", c19Corpus[idx].Path, c19Corpus[idx].Cfg, funcNames[it.Extra], clip(got.String(), 600), clip(c19Expect[idx], 600)))
+							return
+						}
+					}
+				}
+				t.ops = append(t.ops, cp)
+			}
+			if it.Fail == "" && it.Cfg.Present && it.Cfg.Funcs != 0 && chance(12) {
+				// a function returned by Parse is used and one of its user functions panics (the
+				// caller recovers): not judged itself; whatever is parsed or called afterwards is
+				pk := rn(1 << 12)
+				pp := &Op{Kind: opCustom, Path: &PathSpec{Text: it.Path + "  (user function panics)"}, Cfg: it.Cfg}
+				pp.Do = func(t *Task, o *Op) {
+					simrt.OpStart()
+					fn, out := safeParse(it.Path, cfgArgs(it.Cfg), 0)
+					if fn == nil {
+						o.Got = out
+						return
+					}
+					var pn [nFuncs]uint64
+					for f := 0; f < nFuncs; f++ {
+						if it.Cfg.Funcs&(1<<uint(f)) != 0 && strings.Contains(it.Path, "."+funcNames[f]+"()") {
+							pn[f] = 1 << uint(pk%3)
+						}
+					}
+					t.rec.reset([nFuncs]uint64{})
+					t.rec.Panics = pn
+					_, o.Got = safeCall(fn, probeDocs()[pk%3])
+					if t.rec.Panicked > 0 {
+						t.fault("callback-panicked")
+					}
+				}
+				t.ops = append(t.ops, pp)
+			}
 			if useKept && chance(60) {
 				// modify the kept Config after Parse used it, then re-exercise what was parsed before
 				m := &Op{Kind: opCustom, Path: &PathSpec{Text: "modify Config, re-probe earlier functions"}}
